@@ -133,7 +133,7 @@ pub fn run(ctx: &Ctx, rep: &mut Report) {
     let th = thresholds(ctx.thorough());
     let n_b = th.len() as u64 * ctx.n(6, 60);
     // C: random sizes
-    let n_c = ctx.n(1500, 20_000);
+    let n_c = ctx.n(5000, 60_000);
     // D: deterministic grid: all levels x all strategies x the two nastiest classes x sizes
     // beyond one window (blocks larger than the dictionary lose the stored-block fallback)
     let grid_sizes = [33_000usize, 40_000, 58_000, 59_000, 100_000, 200_000, 230_000];
